@@ -38,7 +38,23 @@ func vpParseOne(step any, bare bool) []byte {
 	vpAssert(vpJKind(b) == 5, "a pipeline marshals to an object (a bare step list becomes `steps`)")
 	sb, has := vpJGet(b, "steps")
 	vpAssert(has && vpJKind(sb) == 4 && vpJLen(sb) == 1, "the step list has one element")
+	if vpParam("yaml") != 0 {
+		vpYAMLCarriesSameData(p, b)
+	}
 	return vpJElem(sb, 0)
+}
+
+// vpYAMLCarriesSameData: the YAML marshalling (node data model) of the parsed
+// pipeline, parsed again, marshals to the same JSON data as the pipeline
+// itself - the YAML output loses, duplicates and re-types nothing either.
+func vpYAMLCarriesSameData(p *Pipeline, wantJSON []byte) {
+	p2, perr, ok := vpYAMLReparsePipeline(p)
+	if !ok {
+		return
+	}
+	vpAssert(perr == nil, "the YAML form of the parsed pipeline parses again without warning")
+	j2, e2 := json.Marshal(p2)
+	vpAssert(e2 == nil && vpJEqualLoose(wantJSON, j2), "the YAML output carries the same data as the JSON output (nil and empty containers identified)")
 }
 
 func vpJSONOf(v any) []byte {
